@@ -358,7 +358,11 @@ func derives(v ssa.Value, s FlowSpec, seen map[seenKey]bool, depth int, fr *Fram
 				var vals []ssa.Value
 				args := x.Call.Args
 				for _, i := range idxs {
-					if i < len(args) {
+					if i == -1 && x.Call.IsInvoke() {
+						vals = append(vals, x.Call.Value) // the receiver of an interface call
+						continue
+					}
+					if i >= 0 && i < len(args) {
 						vals = append(vals, args[i])
 					}
 				}
